@@ -5,11 +5,8 @@ Text form of INI documents.
 * `IniText.render` reproduces `SortedConfigParser.write` (CPython `RawConfigParser.write` over `SortedDict`s):
   `[DEFAULT]` first when present, then the sections sorted by name; inside a section the options sorted by name,
   each as `key = value` (a line feed inside a value becomes line feed + tab), one blank line after every section.
-* `IniText.parse` is a line-based model of `RawConfigParser._read` as configured by the library
-  (delimiters `=` and `:`, full-line comment prefixes `#` and `;`, no inline comments, strict, empty lines allowed
-  in values, no value-less options): comments, blank lines, continuation lines by indentation, section headers,
-  option lines, duplicate section/option and missing-header errors, and the final join of multi-line values.
-  Every reader error is `Err.parserError`.
+* the reader is `IniParse.parse` (`Model/IniParse.lean`, proved to invert the writer in `Proofs/IniRoundTrip.lean`);
+  `Proofs/TreeInfoText.lean` ties `render` to `IniParse.render` and accounts for comment-named options.
 * `IniText.Representable` is the decidable subset of documents on which the reader inverts the writer.
 -/
 namespace PM
@@ -29,95 +26,6 @@ def render (d : Ini) : Str :=
    | some opts => if opts.isEmpty then [] else renderSec (DEFAULT, opts)
    | none => [])
   ++ (sortKV (d.filter (·.1 != DEFAULT))).flatMap renderSec
-
-/-! #### reader -/
-
-structure PState where
-  secs : List (Str × List (Str × List Str)) := []
-  cur : Option Str := none          -- current section
-  opt : Option Str := none          -- current option (`optname`), `none` also stands for an empty name
-  indent : Option Nat := some 0     -- `none` = `sys.maxsize`
-
-/-- number of leading whitespace characters (`NONSPACECRE.search(line).start()`, 0 when there is none) -/
-def indentOf (line : Str) : Nat :=
-  let n := (line.takeWhile Str.isPySpace).length
-  if n = line.length then 0 else n
-
-/-- `SECTCRE.match(value)`: `[` + at least one character + `]` (the last `]` of the line closes) -/
-def sectionHeader (value : Str) : Option Str :=
-  match value with
-  | '[' :: rest =>
-    -- drop everything after the last ']'
-    let r := rest.reverse.dropWhile (· != ']')
-    match r with
-    | _ :: hdRev => if hdRev.isEmpty then none else some hdRev.reverse
-    | [] => none
-  | _ => none
-
-/-- `_optcre.match(value)`: name = text before the first `=`/`:` without trailing blanks, value = text after it
-without leading blanks -/
-def optionLine (value : Str) : Option (Str × Str) :=
-  let name := value.takeWhile (fun c => c != '=' && c != ':')
-  match value.dropWhile (fun c => c != '=' && c != ':') with
-  | _ :: rest => some (Str.rstrip name, Str.strip rest)
-  | [] => none
-
-def appendCont (secs : List (Str × List (Str × List Str))) (s o v : Str) : List (Str × List (Str × List Str)) :=
-  secs.map fun sec => if sec.1 == s then (sec.1, sec.2.map fun kv => if kv.1 == o then (kv.1, kv.2 ++ [v]) else kv) else sec
-
-def step (st : PState) (line : Str) : Except Err PState :=
-  let stripped := Str.strip line
-  let isComment := Str.startsWith stripped ['#'] || Str.startsWith stripped [';']
-  let value := if isComment then [] else stripped
-  if value.isEmpty then
-    -- blank line: part of a multi-line value unless it was a comment
-    match isComment, st.cur, st.opt with
-    | false, some s, some o => .ok { st with secs := appendCont st.secs s o [] }
-    | _, _, _ => .ok st
-  else
-    let ind := indentOf line
-    let deeper : Bool := match st.indent with | some i => decide (ind > i) | none => false
-    match st.cur, st.opt, deeper with
-    | some s, some o, true => .ok { st with secs := appendCont st.secs s o value }
-    | _, _, _ =>
-      match sectionHeader value with
-      | some name =>
-        if name == DEFAULT then
-          .ok { secs := if (st.secs.lookup name).isSome then st.secs else st.secs ++ [(name, [])],
-                cur := some name, opt := none, indent := some ind }
-        else if (st.secs.lookup name).isSome then .error .parserError
-        else .ok { secs := st.secs ++ [(name, [])], cur := some name, opt := none, indent := some ind }
-      | none =>
-        match st.cur with
-        | none => .error .parserError                       -- MissingSectionHeaderError
-        | some s =>
-          match optionLine value with
-          | none => .error .parserError                     -- ParsingError
-          | some (o, v) =>
-            if o.isEmpty then .error .parserError
-            else
-              let opts := (st.secs.lookup s).getD []
-              if (opts.lookup o).isSome then .error .parserError   -- DuplicateOptionError
-              else .ok { secs := setKV s (opts ++ [(o, [v])]) st.secs, cur := some s, opt := some o, indent := some ind }
-
-def steps : PState → List Str → Except Err PState
-  | st, [] => .ok st
-  | st, l :: ls => match step st l with
-    | .ok st' => steps st' ls
-    | .error e => .error e
-
-/-- `_join_multiline_values` -/
-def joinValues (secs : List (Str × List (Str × List Str))) : Ini :=
-  secs.map fun sec => (sec.1, sec.2.map fun kv => (kv.1, Str.rstrip (Str.joinWith '\n' kv.2)))
-
-/-- the lines a text file object yields (split at line feeds; the piece after a final line feed is not a line) -/
-def linesOf (text : Str) : List Str :=
-  let ps := Str.splitOn '\n' text
-  if ps.getLast? == some [] then ps.dropLast else ps
-
-/-- `parser.read_file(f)` on a fresh parser -/
-def parse (text : Str) : Except Err Ini :=
-  (steps {} (linesOf text)).map fun st => joinValues st.secs
 
 /-! #### representable documents -/
 
